@@ -368,7 +368,7 @@ void harness(void)
 unit('op_eq',
      ['igris::vector::operator==', 'igris::vector::operator!='],
      ['EQ'],
-     'operator== / operator!= on arbitrary VEC states (also v == v): true iff the sizes are equal and the elements are equal position by position '
+     'operator== / operator!= on arbitrary VEC states (also v == v): true iff the sizes are equal and the elements are equal (T::operator==) position by position '
      '(std::vector: equal ranges); only live elements inside the blocks are read; nothing is modified',
      '''
 void harness(void)
@@ -381,18 +381,18 @@ void harness(void)
 
     if (r) {
         __CPROVER_assert(size == osize, "value: operator==: true only for equal sizes");
-        if (k < size) __CPROVER_assert(ELEM_V(&v.m_data[k]) == ELEM_V(&o->m_data[k]), "value: operator==: true only if every pair of elements is equal");
+        if (k < size) __CPROVER_assert(C02_VEQ(ELEM_V(&v.m_data[k]), ELEM_V(&o->m_data[k])), "value: operator==: true only if every pair of elements is equal (T::operator==)");
     } else {
-#if !VC_FALLBACK        /* depends on the injected ghost statement g_eq_it = it */
-        size_t idx = size != osize ? 0 : (size_t)(g_eq_it - v.m_data);      /* ghost: where the loop stopped */
-        __CPROVER_assert(size != osize || (idx < size && ELEM_V(&v.m_data[idx]) != ELEM_V(&o->m_data[idx])),
+#if !VC_FALLBACK        /* depends on the ghost g_eq_it (injected statement in the loop / set by the std::equal, memcmp stubs) */
+        size_t idx = (size != osize || !g_eq_it) ? size : (size_t)(g_eq_it - v.m_data);      /* ghost: where the comparison stopped */
+        __CPROVER_assert(size != osize || (idx < size && !C02_VEQ(ELEM_V(&v.m_data[idx]), ELEM_V(&o->m_data[idx]))),
                          "value: operator==: false only for different sizes or a differing pair of elements");
 #endif
     }
 #ifdef WITNESS_MODE     /* small concrete blocks: compare with a directly computed reference (ghost-free, used by the bounded fallback) */
     {
         bool ref = size == osize;
-        for (size_t i = 0; ref && i < size; i++) if (ELEM_V(&v.m_data[i]) != ELEM_V(&o->m_data[i])) ref = false;
+        for (size_t i = 0; ref && i < size; i++) if (!C02_VEQ(ELEM_V(&v.m_data[i]), ELEM_V(&o->m_data[i]))) ref = false;
         __CPROVER_assert(r == ref, "value: operator==: equals std::equal of the two element sequences (reference loop)");
     }
 #endif
@@ -401,7 +401,9 @@ void harness(void)
     __CPROVER_assert(v.m_size == size && v.m_capacity == cap && w.m_size == wsize && w.m_capacity == wcap, "frame: operator==: nothing modified");
     CANARY("operator== end reachable");
 }
-''', extra={'fallback': 'ghost-free'})
+''', extra={'fallback': 'ghost-free', 'params': {'C02_T_TRIVIAL': [0, 1]}},
+     assumptions=['op_eq runs twice: C02_T_TRIVIAL=0 (element equality = value identity) and C02_T_TRIVIAL=1 (std::is_trivially_copyable<T> etc. are true and '
+                  'T::operator== ignores value bit 0: a trivially copyable T need not have bytewise equality, e.g. double, POD with user-defined ==)'])
 
 unit('op_lt',
      ['igris::vector::operator<', 'std::lexicographical_compare stub'],
